@@ -3,11 +3,21 @@ use serde_json::Value;
 
 pub mod c01;
 pub mod c02;
+pub mod c03;
 pub mod c04;
 pub mod c05;
 pub mod c06;
 pub mod c07;
+pub mod c08;
+pub mod c09;
+pub mod c10;
+pub mod c11;
+pub mod c12;
+pub mod c13;
 pub mod c14;
+pub mod c16;
+pub mod c18;
+pub mod c19;
 pub mod c20;
 
 /// properties that quantify over build configurations
@@ -19,11 +29,21 @@ pub fn run(ctx: &Ctx) -> Option<Report> {
     Some(match ctx.id.as_str() {
         "C01" => c01::run(ctx),
         "C02" => c02::run(ctx),
+        "C03" => c03::run(ctx),
         "C04" => c04::run(ctx),
         "C05" => c05::run(ctx),
         "C06" => c06::run(ctx),
         "C07" => c07::run(ctx),
+        "C08" => c08::run(ctx),
+        "C09" => c09::run(ctx),
+        "C10" => c10::run(ctx),
+        "C11" => c11::run(ctx),
+        "C12" => c12::run(ctx),
+        "C13" => c13::run(ctx),
         "C14" => c14::run(ctx),
+        "C16" => c16::run(ctx),
+        "C18" => c18::run(ctx),
+        "C19" => c19::run(ctx),
         "C20" => c20::run(ctx),
         _ => return None,
     })
@@ -49,11 +69,21 @@ pub fn replay(id: &str, file: &str) -> i32 {
     let verdict = match id {
         "C01" => c01::replay(case),
         "C02" => c02::replay(case),
+        "C03" => c03::replay(case),
         "C04" => c04::replay(case),
         "C05" => c05::replay(case),
         "C06" => c06::replay(case),
         "C07" => c07::replay(case),
+        "C08" => c08::replay(case),
+        "C09" => c09::replay(case),
+        "C10" => c10::replay(case),
+        "C11" => c11::replay(case),
+        "C12" => c12::replay(case),
+        "C13" => c13::replay(case),
         "C14" => c14::replay(case),
+        "C16" => c16::replay(case),
+        "C18" => c18::replay(case),
+        "C19" => c19::replay(case),
         "C20" => c20::replay(case),
         _ => {
             eprintln!("unknown property {id}");
